@@ -16,8 +16,13 @@ SHRINK = None
 def gen(rng, i, tier):
     nd = int(rng.integers(1, 5))
     ds = [sc.mk_dataset(rng, maxn=40 if tier == "quick" else 300) for _ in range(nd)]
-    qmin = float(rng.choice([0.5, 1.0, 2.0, 1.23])) if rng.random() < 0.5 else None
+    qmin = float(rng.choice([0.5, 1.0, 2.0, 1.23, 0.0, 0.0])) if rng.random() < 0.5 else None
     qmax = float(rng.choice([2.5, 3.0, 4.0, 2.77])) if rng.random() < 0.5 else None
+    if qmin == 0.0:
+        # a window starting exactly at Q = 0 must still cut negative Q (reachable through a negative Q offset)
+        for d in ds[:2]:
+            d["X"] = {"Offset": float(rng.choice([-0.3, -1.5, -0.25]))}
+            d.pop("Qmin", None)
     return dict(datasets=ds, qmin=qmin, qmax=qmax, bcoh=float(rng.uniform(1, 5)), btot=float(rng.uniform(1, 5)), nd=nd,
                 window=(qmin is not None, qmax is not None), offset=any("X" in d for d in ds))
 
